@@ -2,6 +2,7 @@ package main
 
 import (
 	"fmt"
+	"go/constant"
 	"go/token"
 	"go/types"
 	"math/big"
@@ -460,6 +461,52 @@ type BigEval struct {
 	Use  map[ssa.Instruction]map[ssa.Value]Term // terms of *big.Int operands at stores, map updates, returns
 }
 
+// store-to-load forwarding is kept inside the flow-sensitive state: a placeholder key per address
+// descriptor maps to an opaque term naming the tracked object that was stored there.
+var (
+	fwdKeys  = map[string]*ssa.Const{}
+	siteIDs  = map[ssa.Value]int{}
+	siteByID = []ssa.Value{}
+)
+
+func fwdKey(d string) *ssa.Const {
+	if k, ok := fwdKeys[d]; ok {
+		return k
+	}
+	k := ssa.NewConst(constant.MakeString("fwd:"+d), types.Typ[types.String])
+	fwdKeys[d] = k
+	return k
+}
+
+func siteTerm(v ssa.Value) Term {
+	id, ok := siteIDs[v]
+	if !ok {
+		id = len(siteByID)
+		siteIDs[v] = id
+		siteByID = append(siteByID, v)
+	}
+	return termOpaque(fmt.Sprintf("@site:%d", id))
+}
+
+// site resolves a value to its abstract object, forwarding loads of fields that were assigned a tracked object.
+func (be *BigEval) site(st btState, v ssa.Value) ssa.Value {
+	s := siteOf(v)
+	if u, ok := s.(*ssa.UnOp); ok && u.Op == token.MUL {
+		if _, isFA := u.X.(*ssa.FieldAddr); isFA {
+			if t, ok := st[fwdKey(desc(u.X))]; ok {
+				if n := t.opaqueName(); strings.HasPrefix(n, "@site:") {
+					var id int
+					fmt.Sscanf(n, "@site:%d", &id)
+					if id < len(siteByID) {
+						return siteByID[id]
+					}
+				}
+			}
+		}
+	}
+	return s
+}
+
 type btState map[ssa.Value]Term
 
 func (s btState) clone() btState {
@@ -597,7 +644,7 @@ func rpo(fn *ssa.Function) []*ssa.BasicBlock {
 
 // termOf returns the current term of a *big.Int value.
 func (be *BigEval) termOf(st btState, v ssa.Value) Term {
-	s := siteOf(v)
+	s := be.site(st, v)
 	if t, ok := st[s]; ok {
 		return t
 	}
@@ -710,7 +757,7 @@ func (be *BigEval) step(st btState, ins ssa.Instruction) {
 			}
 			return
 		}
-		recv := siteOf(args[0])
+		recv := be.site(st, args[0])
 		get := func(i int) Term { return be.termOf(st, args[i]) }
 		var res Term
 		switch m {
@@ -782,6 +829,14 @@ func (be *BigEval) step(st btState, ins ssa.Instruction) {
 		// stores of *big.Int into package-level struct fields (init functions)
 		if isBigIntPtr(x.Val.Type()) {
 			d := desc(x.Addr)
+			if _, isFA := x.Addr.(*ssa.FieldAddr); isFA {
+				switch be.site(st, x.Val).(type) {
+				case *ssa.Alloc, *ssa.Call:
+					st[fwdKey(d)] = siteTerm(be.site(st, x.Val))
+				default:
+					delete(st, fwdKey(d))
+				}
+			}
 			if strings.HasPrefix(d, "global:") {
 				be.Glob[d] = be.termOf(st, x.Val)
 			}
